@@ -340,6 +340,10 @@ func init() {
 }
 
 func cachePar2(prefix string, pairs [][2]string, sameKey int) []eng.Instance {
+	return cachePar2R(prefix, pairs, sameKey, 2)
+}
+
+func cachePar2R(prefix string, pairs [][2]string, sameKey, rounds int) []eng.Instance {
 	idx := func(n string) int64 {
 		for i, c := range cacheOps {
 			if c == n {
@@ -351,7 +355,7 @@ func cachePar2(prefix string, pairs [][2]string, sameKey int) []eng.Instance {
 	var is []eng.Instance
 	for _, p := range pairs {
 		is = append(is, eng.Instance{Name: fmt.Sprintf("%s/%s||%s", prefix, p[0], p[1]), Pkg: "cache", Func: "VxH_C02_par2",
-			Args: []int64{idx(p[0]), idx(p[1]), int64(sameKey), 1}, Cfg: eng.Config{DefaultUnwind: 4, Rounds: 3}})
+			Args: []int64{idx(p[0]), idx(p[1]), int64(sameKey), 1}, Cfg: eng.Config{DefaultUnwind: 4, Rounds: rounds}})
 	}
 	return is
 }
@@ -360,7 +364,7 @@ func init() {
 	register(&PropSpec{
 		ID:        "C02",
 		Technique: "context-bounded symbolic scheduling of two Cache/CacheOf calls on the real stack (cache layer + real xsync map, frozen symbolic clock, entries live/expired/absent); linearizability oracle vs the TTL-map reference",
-		Bounds:    map[string]interface{}{"threads": 2, "ops_per_thread": 1, "rounds": 2, "table": "1 root bucket", "pre_state_entries": 1},
+		Bounds:    map[string]interface{}{"threads": 2, "ops_per_thread": 1, "rounds": "2 (quick), 3 (thorough)", "map": "atomic specification behind the items interface (seam)", "pre_state_entries": 1},
 		Stubs:     commonStubs,
 		Outside:   []string{"more than 2 goroutines / 1 call each", "more than 3 context switches", "clock advancing during the concurrent phase", "table resizes during the calls"},
 		Quick: func() []eng.Instance {
@@ -380,6 +384,80 @@ func init() {
 			is := mapPar2("C05/Map/race", "VxH_Map_par2", [][2]int{{2, 2}, {4, 4}, {5, 5}, {3, 3}, {4, 2}}, []int64{1, 1, 1, 11}, 2)
 			is = append(is, mapPar2("C05/MapOf/race", "VxH_MapOf_par2", [][2]int{{2, 2}, {4, 4}, {5, 5}}, []int64{1, 1, 1, 11, 2}, 2)...)
 			is = append(is, withOf(cachePar2("C05/Cache/race", [][2]string{{"GetOrCompute", "GetOrCompute"}, {"GetOrSet", "GetOrSet"}, {"Compute", "Compute"}, {"GetAndSet", "GetAndRefresh"}}, 1))...)
+			return is
+		},
+	})
+}
+
+func init() {
+	stalled := func(prefix, fn string, extra []int64) []eng.Instance {
+		var is []eng.Instance
+		writers := []int{1, 5, 7, 4, 8} // Store Compute Delete LoadOrCompute Clear
+		readers := []int{0, 2, 10}      // Load, LoadOrStore (hit), Size
+		for _, w := range writers {
+			for _, r := range readers {
+				args := append([]int64{int64(w), int64(r)}, extra...)
+				is = append(is, eng.Instance{Name: fmt.Sprintf("%s/writer=%s/reader=%s", prefix, mapOps[w], mapOps[r]), Pkg: "xsync", Func: fn, Args: args,
+					Cfg: eng.Config{DefaultUnwind: 3, Rounds: 1, NoResize: map[int]bool{0: true, 1: true}}})
+			}
+		}
+		return is
+	}
+	register(&PropSpec{
+		ID:        "C16",
+		Technique: "bounded symbolic execution with a symbolic stall point: the writer's go/ssa code runs a free-length prefix of its visible operations (incl. a yield inside its user function, i.e. while holding the bucket lock), then the reader runs alone; any disabled blocking operation or spin of the reader is a violation; result must be the value before or after the writer's operation",
+		Bounds:    map[string]interface{}{"writer_prefix": "any number of visible operations (symbolic)", "table": "1 root bucket, <=2 pre-state entries", "readers": "Load, LoadOrStore hit path, Size", "unwind": 3},
+		Stubs:     commonStubs,
+		Outside:   []string{"writers in the middle of a grow/shrink copy (Clear is included)", "cache-level Get/GetWithTTL (same Load underneath; see DESIGN.md)"},
+		Quick: func() []eng.Instance {
+			is := stalled("C16/Map", "VxH_Map_stalled", []int64{1, 1, 1, 2})
+			is = append(is, stalled("C16/MapOf", "VxH_MapOf_stalled", []int64{1, 1, 1, 2, 2})...)
+			return is
+		},
+	})
+}
+
+func init() {
+	register(&PropSpec{
+		ID:        "C08",
+		Technique: "bounded symbolic execution: the striped-counter sum is part of the representation invariant re-established by every Map/MapOf step (incl. grow recount and Clear); cache Count vs physically stored entries after every operation; quiescent Size after two-thread runs with symbolic schedules (insert || delete of one key)",
+		Bounds:    map[string]interface{}{"sequential": "as C11 shapes", "concurrent": "2 goroutines, 1 op each, <=3 context switches, 1 root bucket"},
+		Stubs:     commonStubs,
+		Outside:   []string{"writers overlapping a table copy (grow/shrink concurrent with the calls)"},
+		Quick: func() []eng.Instance {
+			var is []eng.Instance
+			for _, n := range []string{"Set", "Get", "GetOrSet", "GetAndRefresh", "Compute", "GetAndDelete", "DeleteExpired", "Clear"} {
+				for i, c := range cacheOps {
+					if c == n {
+						is = append(is, eng.Instance{Name: "C08/Cache/count/" + n, Pkg: "cache", Func: "VxH_C08_count", Args: []int64{int64(i)}, Cfg: eng.Config{DefaultUnwind: 9}})
+					}
+				}
+			}
+			is = withOf(is)
+			is = append(is, mapStepInstances("C08/Map/step", "VxH_Map_step", []shape{{1, 1, 1, 0}}, []int{1, 5, 7, 8, 10})...)
+			is = append(is, mapOfStepInstances("C08/MapOf[int,int]/step", "VxH_MapOfII_step", [][5]int{{1, 1, 1, 3, 0}}, []int{1, 5, 7, 8, 10})...)
+			is = append(is, mapPar2("C08/Map/par2", "VxH_Map_par2", [][2]int{{1, 7}, {6, 1}}, []int64{1, 1, 1, 11}, 2)...)
+			is = append(is, mapPar2("C08/MapOf/par2", "VxH_MapOf_par2", [][2]int{{1, 7}}, []int64{1, 1, 1, 11, 2}, 2)...)
+			return is
+		},
+	})
+	register(&PropSpec{
+		ID:        "C10",
+		Technique: "bounded symbolic execution of MapOf[K,int] steps for key types of several comparable kinds under an uninterpreted hasher that respects == (any collision pattern incl. total): two keys address the same entry iff Go == says so",
+		Bounds:    map[string]interface{}{"key_types": "struct{int8;int64} (padding), nested struct with string/array fields, bool, int8, *int (incl. nil), string", "table": "1 root bucket, 2-3 symbolic slots"},
+		Stubs:     commonStubs,
+		Outside:   []string{"the default hasher built on runtime.typehash (its body is not encoded; known weakness for interface-typed K is described in DESIGN.md and not claimed)", "float keys", "interface-typed keys"},
+		Quick: func() []eng.Instance {
+			var is []eng.Instance
+			kinds := []string{"struct{int8;int64}", "nested-struct", "bool", "int8", "*int", "string"}
+			for k, kn := range kinds {
+				for _, op := range []int{0, 1, 5, 6} {
+					slots := 2
+					is = append(is, eng.Instance{Name: fmt.Sprintf("C10/MapOf[%s]/step/%s", kn, mapOps[op]), Pkg: "xsync", Func: "VxH_C10_step",
+						Args: []int64{int64(k), int64(op), int64(slots)}, Cfg: eng.Config{DefaultUnwind: 8}})
+				}
+			}
+			is = append(is, eng.Instance{Name: "C10/MapOf[*int]/pointee-change", Pkg: "xsync", Func: "VxH_C10_pointee", Cfg: eng.Config{DefaultUnwind: 8}})
 			return is
 		},
 	})
